@@ -11,8 +11,11 @@
   not involve the experiments (missing graph, budget exhausted, an error of line 2 / line 10 …) answer `false`: there
   the run is the same with and without declared experiments.
 
+  `usesLine6x` (end of the file) is the exact version: line 4 read lazily, as `collectTerms` / the Python loop does.
+
   `clearSurr q` is `q` with no declared experiment.  Lemmas/TrsoUse proves
-  `usesLine6 sep fuel q = false → trsoF sep fuel q = trsoF sep fuel (clearSurr q)`.
+  `usesLine6 sep fuel q = false → trsoF sep fuel q = trsoF sep fuel (clearSurr q)`, the same for `usesLine6x`, and
+  `usesLine6x sep fuel q = true → usesLine6 sep fuel q = true`.
 
   Core Lean only.
 -/
@@ -82,6 +85,54 @@ def identifyUsesLine6 (sep : SepTest) (G : MG Name) (Y X : List Name)
     | .ok graphs =>
       let q := initialQuery G Y X graphs interventions
       usesLine6 sep q.fuel q
+
+/-! ### the exact version: line 4 read lazily
+
+`collectTerms` (the Python loop of line 4) stops at the first component that is refused or fails; `usesLine6` inspects
+every component.  `usesLine6x` inspects a later component only if every earlier one returned an estimand, so it is
+`true` exactly when the run enters line 6 at some state it really reaches and `line6` is not `.ok []`. -/
+
+/-- walk the sub-queries in order: `use` on the head, and on the tail only if the head's run returned an estimand -/
+def anyUntil (use : Query → Bool) (run : Rec) : List Query → Bool
+  | [] => false
+  | s :: rest =>
+    use s || (match run s with
+      | .ok (some _) => anyUntil use run rest
+      | _ => false)
+
+/-- `usesLine6` with line 4 read lazily (the components the loop of line 4 really evaluates) -/
+def usesLine6x (sep : SepTest) : Nat → Query → Bool
+  | 0, _ => false
+  | fuel + 1, q =>
+    match q.graph with
+    | .error _ => false
+    | .ok G =>
+      if q.X.isEmpty then false
+      else match G.ancestorsInclusive q.Y with
+        | .error _ => false
+        | .ok anc =>
+          if !(diff' (regularNodes G) anc).isEmpty then
+            match line2 q anc with
+            | .error _ => false
+            | .ok q' => usesLine6x sep fuel q'
+          else match noEffectOnOutcomes G q.X q.Y with
+            | .error _ => false
+            | .ok extra =>
+              if !extra.isEmpty then usesLine6x sep fuel (line3 q extra)
+              else if (G.removeNodes q.X).districts.length > 1 then
+                anyUntil (usesLine6x sep fuel) (trsoF sep fuel) (line4 q G (G.removeNodes q.X).districts)
+              else
+                line6Fires sep q || (sub811 q G (G.removeNodes q.X).districts).any (usesLine6x sep fuel)
+
+/-- `usesLine6x` for the run `identify_target_outcomes` starts (`false` on input it rejects: no run) -/
+def identifyUsesLine6x (sep : SepTest) (G : MG Name) (Y X : List Name)
+    (outcomes interventions : List (Pop × List Name)) : Bool :=
+  if !validInput G Y X outcomes interventions then false
+  else match surrogateToTransport G outcomes interventions with
+    | .error _ => false
+    | .ok graphs =>
+      let q := initialQuery G Y X graphs interventions
+      usesLine6x sep q.fuel q
 
 end Trso
 end Y0
